@@ -27,6 +27,7 @@ class Ctx:
     # --- running -------------------------------------------------------------
     def run(self, cs, label='cases', **kw):
         cases = cs.cases if hasattr(cs, 'cases') else cs
+        own_crash_handling = kw.pop('own_crash_handling', False)
         res = run_cases(cases, self.work, label=label, **kw)
         self._raw_model = getattr(self, '_raw_model', {})
         self._raw_model.update(res.model_raw)
@@ -35,6 +36,11 @@ class Ctx:
             self.fam[c.fam] = self.fam.get(c.fam, 0) + 1
         for cr in res.crashes:
             self.crashes.append(cr)
+            # a driver process that died (fatal runtime error, os.Exit by the watchdog after 120 s without an answer) gave no verdict at all
+            if cr[0] == 'impl' and not own_crash_handling:
+                byid = {c.id: c for c in cases}
+                c = byid.get(cr[4])
+                self.violation('the process running the library died or never answered (rc %s) on this case: %s' % (cr[2], (cr[3] or '')[-400:]), [c] if c else [])
         # every eval case is run twice by the driver (two fresh evaluators): an outcome that changes is a violation of any property
         for c in cases:
             io = res.impl.get(c.id)
